@@ -32,12 +32,18 @@ func registerIntrinsics(e *Exec) {
 	noop := func(e *Exec, st *State, fn *ssa.Function, args []Value) []Outcome { return e.zeroResults(st, fn) }
 
 	for _, n := range []string{
-		"(*sync.Mutex).Lock", "(*sync.Mutex).Unlock", "(*sync.RWMutex).Lock", "(*sync.RWMutex).Unlock",
-		"(*sync.RWMutex).RLock", "(*sync.RWMutex).RUnlock", "(*sync.WaitGroup).Add", "(*sync.WaitGroup).Done",
+		"(*sync.WaitGroup).Add", "(*sync.WaitGroup).Done",
 		"(*sync.WaitGroup).Wait", "time.Sleep", "fmt.Println", "fmt.Printf", "fmt.Print", "os.Exit",
 		"(*sync.Mutex).TryLock",
 	} {
 		in[n] = noop
+	}
+	// mutexes: one flow of control at a time, so Lock never blocks; the number held is kept for vLocksHeld
+	for _, n := range []string{"(*sync.Mutex).Lock", "(*sync.RWMutex).Lock", "(*sync.RWMutex).RLock"} {
+		in[n] = func(e *Exec, st *State, fn *ssa.Function, args []Value) []Outcome { st.locks++; return ret(st) }
+	}
+	for _, n := range []string{"(*sync.Mutex).Unlock", "(*sync.RWMutex).Unlock", "(*sync.RWMutex).RUnlock"} {
+		in[n] = func(e *Exec, st *State, fn *ssa.Function, args []Value) []Outcome { st.locks--; return ret(st) }
 	}
 	in["(*sync.Once).Do"] = func(e *Exec, st *State, fn *ssa.Function, args []Value) []Outcome {
 		p := args[0].(Ptr)
